@@ -343,6 +343,56 @@ theorem definition_needs_carried_annotation (len : Int) (ops : List Op) (r : Rec
   · exact absurd hm (definition_needs_exact_product len ops r hok hrun a ha d hd hk g hg
       (fun p hpm e => hp (e ▸ hpm)))
 
+/-! #### annotations rewritten while the gene is in the record (`.setCores`: `gene_functions.add`, strip) -/
+
+/-- rewriting the annotations of a gene in the record replaces the gene's core products (in the gene list, the
+    name map and the cached tuple alike) and touches nothing else; the model follows it for a gene no collection
+    has listed yet -/
+theorem reannotation_takes_effect (len : Int) (ops : List Op) (gid : Nat) (cs : List String) (r' : Rec)
+    (hrun : run len (ops ++ [.setCores gid cs]) = .ok r') :
+    ∃ r, run len ops = .ok r ∧ (∀ x ∈ r.members, x.2 ≠ gid) ∧
+      r'.genes = r.genes.map (recore gid cs) ∧ r'.members = r.members ∧ r'.defs = r.defs ∧ r'.sections = r.sections := by
+  obtain ⟨r, hr, hs⟩ := run_snoc hrun
+  obtain ⟨hno, e⟩ := setCores_ok hs
+  subst e
+  exact ⟨r, hr, hno, rfl, rfl, rfl, rfl⟩
+
+/-- the model's limit, exactly: a rewrite is *not* followed iff some collection already lists the gene -/
+theorem reannotation_model_limit (r : Rec) (gid : Nat) (cs : List String) :
+    setCores r gid cs = .error "annotation-after-pairing" ↔ ∃ x ∈ r.members, x.2 = gid := by
+  unfold setCores
+  cases hm : (r.members.any fun x => x.2 == gid) with
+  | true =>
+    simp only [if_true, throw, throwThe, MonadExceptOf.throw, true_iff]
+    rw [List.any_eq_true] at hm
+    obtain ⟨x, hx, e⟩ := hm
+    exact ⟨x, hx, by simpa using e⟩
+  | false =>
+    simp only [Bool.false_eq_true, if_false, pure, Except.pure]
+    rw [List.any_eq_false] at hm
+    constructor
+    · intro h; cases h
+    · rintro ⟨x, hx, e⟩; exact absurd (by simpa using e) (hm x hx)
+
+/-- definition sets over histories with annotation rewrites (every rewrite of a gene preceding the collections that
+    list it — which is what a successful `run` means): a protocluster in the record is defined by exactly the genes
+    inside it and inside its core whose **current** annotations carry a core annotation for its product -/
+theorem definition_uses_current_annotations (len : Int) (ops : List Op) (r : Rec) (hok : HistoryOK ops)
+    (hrun : run len ops = .ok r) (a : AreaT) (ha : a ∈ (liveAfter ops).areas) (d : AreaT) (hd : d ∈ nodes a)
+    (hk : d.kind = .proto) (g : Gene) (hg : g ∈ r.genes) :
+    g.id ∈ r.definition d.id ↔
+      (specContained g.loc d.loc = true ∧ specContained g.loc d.core = true ∧ d.product ∈ g.cores) := by
+  have inv := (run_inv hok.opOK hrun).core
+  rw [definition_cdses_exact len ops r hok hrun a ha d hd hk g.id]
+  simp only [specDefinition, List.mem_map, List.mem_filter, Bool.and_eq_true]
+  constructor
+  · rintro ⟨g', ⟨hg', ⟨h1, h2⟩, h3⟩, hid⟩
+    have := gene_of_id inv.ids hg hg' hid
+    subst this
+    exact ⟨h1, h2, by simpa using h3⟩
+  · rintro ⟨h1, h2, h3⟩
+    exact ⟨g, ⟨hg, ⟨h1, h2⟩, by simpa using h3⟩, rfl⟩
+
 /-- a sideloaded protocluster (`SideloadedProtocluster`) never has defining genes -/
 theorem sideloaded_defines_nothing (len : Int) (ops : List Op) (r : Rec) (hok : HistoryOK ops) (hrun : run len ops = .ok r)
     (a : AreaT) (ha : a ∈ opsAreas ops) (d : AreaT) (hd : d ∈ nodes a) (hk : d.kind = .sideProto) :
@@ -368,6 +418,58 @@ theorem region_sections_partition (len : Int) (ops : List Op) (r : Rec) (hok : H
     gid ∈ r.section a.id s ↔
       ∃ g ∈ r.genes, g.id = gid ∧ specContained g.loc a.loc = true ∧ specSection a.loc g.loc = s :=
   region_sections_exact hrun hok a ha s gid
+
+/-- what is guaranteed for the sections of **every** collection — also one that is, or once was, somebody's
+    child, where the pre/post choice depends on the path the gene arrived by: a gene is filed under `cross`
+    exactly when it crosses the origin.  With `sections_cover_children`: a listed gene that crosses the origin
+    sits in `cross` and in no other section; one that does not sits in `pre` and/or `post`, never in `cross`. -/
+theorem sections_cross_iff_crossing (len : Int) (ops : List Op) (r : Rec) (hok : ∀ op ∈ ops, OpOK op)
+    (hrun : run len ops = .ok r) (g : Gene) (hg : g ∈ r.genes) (aid : Nat) (s : Section)
+    (hm : g.id ∈ r.section aid s) : s = .cross ↔ bridgesOrigin g.loc = true := by
+  have inv := (run_inv hok hrun).core
+  rw [mem_section] at hm
+  obtain ⟨g0, hg0, d, s', ⟨a, _, _, hd⟩, hx⟩ := inv.sectionsSound _ hm
+  injection hx with h1 h2
+  injection h1 with _ h3
+  have := gene_of_id inv.ids hg hg0 h2.symm
+  subst this
+  rw [h3]
+  exact downNodes_cross g0 a.size none a (d, s') (Nat.le_refl _) (fun s0 e => by cases e) hd
+
+/-- a collection that is never handed to the record as somebody's child decides its sections alone: they are
+    its genes split by `specSection`, each gene in exactly one — regions (`region_sections_partition`) are the
+    special case; protoclusters, candidate clusters and subregions qualify until a parent takes them in -/
+theorem toplevel_sections_partition (len : Int) (ops : List Op) (r : Rec) (hok : HistoryOK ops) (hrun : run len ops = .ok r)
+    (a : AreaT) (ha : a ∈ (liveAfter ops).areas)
+    (hnochild : ∀ b ∈ opsAreas ops, ∀ n ∈ nodes b, ∀ k ∈ n.kids, k.id ≠ a.id) (s : Section) (gid : Nat) :
+    gid ∈ r.section a.id s ↔
+      ∃ g ∈ r.genes, g.id = gid ∧ specContained g.loc a.loc = true ∧ specSection a.loc g.loc = s := by
+  have inv := (run_inv hok.opOK hrun).core
+  have har : a ∈ registered r := by rw [registered_eq_live inv]; exact ha
+  have hae := inv.liveEver a har
+  rw [mem_section]
+  constructor
+  · intro hm
+    obtain ⟨g, hg, d, s', hl, hx⟩ := inv.sectionsSound _ hm
+    injection hx with h1 h2
+    injection h1 with h1 h3
+    obtain ⟨a', ha', hc, hd⟩ := hl
+    -- `d` has the id of `a`, so it is not a child anywhere: it is the root of `a'`
+    have hroot : d = a' := by
+      rcases down_root_or_kid g a'.size none a' (d, s') (Nat.le_refl _) hd with e | ⟨m, hm, hk⟩
+      · exact e
+      · exact absurd h1.symm (hnochild a' ha' m hm d hk)
+    subst hroot
+    have hs := down_root_section hd
+    obtain ⟨e1, _, _, _⟩ := hok.ids d ha' a hae d (nodes_self d) a (nodes_self a) h1.symm
+    refine ⟨g, hg, h2.symm, ?_, ?_⟩
+    · rw [← containedBy_eq_spec (gene_le (inv.ok g hg)), ← e1]; exact hc
+    · rw [h3, hs, ownSection_eq_spec d g (inv.ok g hg), e1]
+  · rintro ⟨g, hg, rfl, hc, hs⟩
+    rw [← containedBy_eq_spec (gene_le (inv.ok g hg))] at hc
+    have := inv.sectionsComplete g hg a (ownSection a g none) ⟨a, har, hc, downNodes_self g none a⟩
+    rw [ownSection_eq_spec a g (inv.ok g hg), hs] at this
+    exact this
 
 /-- for every collection: a gene is listed iff it sits in at least one of the three sections -/
 theorem sections_cover_children (len : Int) (ops : List Op) (r : Rec) (hok : ∀ op ∈ ops, OpOK op)
@@ -523,5 +625,13 @@ example : (run 1000 [.cds { id := 0, loc := .simple ⟨120, 180, .fwd⟩, cores 
 /-- annotation history of the round-5 seed: core for "a", stripped, then core for "b" — the gene carries "b" only -/
 example : GeneFn.coreProducts (GeneFn.run [.add ⟨1, "rules", "domA", "a"⟩, .add ⟨2, "smcogs", "x", ""⟩, .clear,
     .add ⟨1, "rules", "domB", "b"⟩]) = ["b"] := by decide
+
+/-- rerun on an annotated record: gene core for "a", stripped and re-annotated for "b" while in the record, then
+    protoclusters "a" and "b" over it — it defines only "b" -/
+example : (run 400 [.cds { id := 0, loc := .simple ⟨100, 160, .fwd⟩, cores := ["a"] }, .setCores 0 [], .setCores 0 ["b"],
+      .area (.mk 100 .proto (.simple ⟨50, 350, .fwd⟩) (.simple ⟨90, 300, .fwd⟩) "a" []),
+      .area (.mk 101 .proto (.simple ⟨50, 350, .fwd⟩) (.simple ⟨90, 300, .fwd⟩) "b" [])]).toOption.map
+      (fun r => (r.definition 100, r.definition 101)) = some ([], [0]) := by
+  decide +kernel
 
 end ASV.C08
